@@ -4,6 +4,7 @@ package main
 
 import (
 	"fmt"
+	"go/constant"
 	"go/token"
 	"go/types"
 	"strings"
@@ -640,4 +641,186 @@ func maxReducesParamIntoCell(c *ssa.Function, call *ssa.Call, v ssa.Value) bool 
 		}
 	}
 	return found && nUpd == 1
+}
+
+// ---------- PROG-2 ----------
+
+func init() {
+	register(&Rule{
+		ID: "PROG-2",
+		Doc: "repeat-while-improved loops make strict progress: in a loop that repeats as long as a boolean flag was raised during the last pass (the flag is a loop-carried constant: cleared at the start of a pass, raised inside it), " +
+			"every place that raises the flag is dominated by the true edge of a STRICT comparison (< or >) between two integer results of the same counting function - the count after the change against the count before it. " +
+			"A flag that can also be raised on an equally good result lets two states alternate for ever (the adjacent-exchange pass of the ordering phase swaps the same pair back and forth); a strictly decreasing non-negative count cannot",
+		Floor: 1,
+		Ctl:   []string{"internal__phase3__prog2.go.txt"},
+		Run:   runProg2,
+	})
+}
+
+func runProg2(m *Model, r *RuleResult) {
+	for _, f := range m.Src {
+		if !inModule(f) || len(f.Blocks) == 0 {
+			continue
+		}
+		if !m.Reach[f] && !m.FuncIsPosctl(f) {
+			continue
+		}
+		if m.FuncIsPosctl(f) && !strings.Contains(f.Name(), "Prog2") {
+			continue
+		}
+		loops := naturalLoops(f)
+		nloop := 0
+		for _, l := range loops {
+			h := l.Head
+			iff, ok := h.Instrs[len(h.Instrs)-1].(*ssa.If)
+			if !ok {
+				continue
+			}
+			flag, ok := iff.Cond.(*ssa.Phi)
+			if !ok || flag.Block() != h || !l.Body[h.Succs[0]] || l.Body[h.Succs[1]] {
+				continue
+			}
+			// resolve the loop-carried values to constants through phis; remember where each `true` comes from
+			type src struct {
+				val  bool
+				from *ssa.BasicBlock // predecessor block of the phi edge that carries the constant
+			}
+			var srcs []src
+			allConst := true
+			seen := map[*ssa.Phi]bool{}
+			var walk func(p *ssa.Phi, outerOnly bool)
+			walk = func(p *ssa.Phi, top bool) {
+				if seen[p] {
+					return
+				}
+				seen[p] = true
+				for i, e := range p.Edges {
+					pred := p.Block().Preds[i]
+					if top && !l.Body[pred] {
+						continue // initial value
+					}
+					switch x := e.(type) {
+					case *ssa.Const:
+						if x.Value == nil || x.Value.Kind() != constant.Bool {
+							allConst = false
+							continue
+						}
+						srcs = append(srcs, src{constant.BoolVal(x.Value), pred})
+					case *ssa.Phi:
+						if x == flag {
+							// the flag unchanged round an inner path: not the cleared-then-raised form
+							allConst = false
+							continue
+						}
+						walk(x, false)
+					default:
+						allConst = false
+					}
+				}
+			}
+			walk(flag, true)
+			hasTrue, hasFalse := false, false
+			for _, s := range srcs {
+				if s.val {
+					hasTrue = true
+				} else {
+					hasFalse = true
+				}
+			}
+			if !allConst || !hasTrue || !hasFalse {
+				continue
+			}
+			nloop++
+			key := fmt.Sprintf("strict-progress:%s#loop%d", funcKey(f), nloop)
+			ctl := m.FuncIsPosctl(f)
+			var bad []string
+			nraise := 0
+			for _, s := range srcs {
+				if !s.val {
+					continue
+				}
+				nraise++
+				if why := strictlyImprovedAt(s.from, l); why != "" {
+					bad = append(bad, "the flag raised on the way out of the block at "+m.Pos(lastPos(s.from))+" "+why)
+				}
+			}
+			pos := m.Pos(iff.Cond.Pos())
+			if pos == "" || pos == "-" {
+				pos = m.Pos(f.Pos())
+			}
+			if len(bad) == 0 {
+				r.add(Obligation{Key: key, Pos: pos, Desc: fmt.Sprintf("%d place(s) raise the repeat flag, each under a strict comparison of two counts of the same counting function", nraise), Verdict: "holds", Control: ctl})
+			} else {
+				r.add(Obligation{Key: key, Pos: pos, Desc: "the repeat flag is raised only on a strict improvement", Verdict: "violation",
+					Detail: strings.Join(uniq(bad), "; ") + ": a pass that changes the state without improving the count asks for another pass, and the loop can alternate between equally good states for ever", Control: ctl})
+			}
+		}
+	}
+}
+
+func lastPos(b *ssa.BasicBlock) token.Pos {
+	for i := len(b.Instrs) - 1; i >= 0; i-- {
+		if p := b.Instrs[i].Pos(); p.IsValid() {
+			return p
+		}
+	}
+	return token.NoPos
+}
+
+// strictlyImprovedAt: block b (inside loop l) is dominated by the true edge of a strict integer comparison between two results of the
+// same static callee; returns "" if so, else a description of what is missing.
+func strictlyImprovedAt(b *ssa.BasicBlock, l *loopInfo) string {
+	sawCmp := false
+	for d := b; d != nil; d = d.Idom() {
+		id := d.Idom()
+		if id == nil || !l.Body[id] {
+			break
+		}
+		iff, ok := id.Instrs[len(id.Instrs)-1].(*ssa.If)
+		if !ok || len(id.Succs) != 2 {
+			continue
+		}
+		// d must be reached only through one definite edge of the branch
+		edge := -1
+		if id.Succs[0] == d && len(d.Preds) == 1 {
+			edge = 0
+		} else if id.Succs[1] == d && len(d.Preds) == 1 {
+			edge = 1
+		}
+		if edge < 0 {
+			continue
+		}
+		cmp, ok := iff.Cond.(*ssa.BinOp)
+		if !ok {
+			continue
+		}
+		op := cmp.Op
+		if edge == 1 {
+			switch op { // the false edge of >= is <, of <= is >
+			case token.GEQ:
+				op = token.LSS
+			case token.LEQ:
+				op = token.GTR
+			default:
+				continue
+			}
+		}
+		if op != token.LSS && op != token.GTR {
+			continue
+		}
+		bx, ok1 := cmp.X.Type().Underlying().(*types.Basic)
+		if !ok1 || bx.Info()&types.IsInteger == 0 {
+			continue
+		}
+		sawCmp = true
+		cx, ok1 := cmp.X.(*ssa.Call)
+		cy, ok2 := cmp.Y.(*ssa.Call)
+		if ok1 && ok2 && cx.Call.StaticCallee() != nil && cx.Call.StaticCallee() == cy.Call.StaticCallee() {
+			return ""
+		}
+	}
+	if sawCmp {
+		return "depends on a strict comparison, but not of two results of one counting function"
+	}
+	return "is not confined to the true edge of a strict comparison (<, >) of the count after the change with the count before it"
 }
